@@ -3,9 +3,10 @@
 -/
 import PowHsm.Spec.C09
 import PowHsm.Proofs.Monad
+import PowHsm.Proofs.BringUp
 namespace PowHsm
 namespace Props.C09
-open Ledger Generated
+open Ledger Generated Dongle M
 
 /-- **the version relation**, for all naturals: the manager supports a running version iff the
     major versions are equal and the running (minor, patch) is lexicographically not newer -/
@@ -40,6 +41,115 @@ theorem supports_is_spec (mw fw : Nat × Nat × Nat) : supports mw fw = Spec.C09
 theorem constants_as_specified :
     UI_VERSION = (5, 4, 1) ∧ APP_VERSION = (5, 4, 1) ∧ MIN_AVAILABLE_RETRIES = 2 ∧
     Spec.C09.managerVersion = (5, 4, 1) := by decide
+
+/-! ### the bring-up model, for every device behaviour (every script, any length) -/
+
+/-- **nothing that carries PIN material (SEND_PIN, UNLOCK, CHANGE_PIN, SGX_UNLOCK,
+    SGX_CHANGE_PASSWORD) is sent while the checks are running** — neither by the start-up checks
+    (connect, onboarded?, mode?) nor by the bootloader checks (UI version, echo, retries), whatever
+    the device answers -/
+theorem no_pin_during_checks : Emits notPin initGuards ∧ Emits notPin blGuards :=
+  ⟨initGuards_notPin, blGuards_notPin⟩
+
+/-- **what the checks establish** when they hand over: the device said it is onboarded; the UI
+    version it reported is supported, its echo matched and it reported at least two retries;
+    and serving only starts from signer mode with a supported signer version -/
+theorem checks_establish :
+    Returns (fun x => x.1 = true) initGuards ∧
+    Returns (fun x => supports UI_VERSION x.1 = true ∧ x.2.1 = true ∧ 2 ≤ x.2.2) blGuards ∧
+    ∀ mode, Returns (fun x => x.1 = mode ∧ x.1 = Mode_SIGNER.toNat ∧ supports APP_VERSION x.2 = true) (signerChecks mode) :=
+  ⟨initGuards_returns, blGuards_returns, signerChecks_returns⟩
+
+/-- **the unlock command is sent at most once per bring-up**, whatever the device does -/
+theorem unlock_at_most_once : CountLe isUnlock 1 initializeDevice := by
+  unfold initializeDevice
+  have nu {α : Type} {m : M α} (h : Emits notPin m) : CountLe isUnlock 0 m := CountLe.of_emits
+    ((h.mono notPin_notUnlock).mono fun e he => by simpa [notUnlock] using he)
+  have tail (mode : Nat) : CountLe isUnlock 0 (afterDispatch mode) :=
+    nu (Emits.bind (signerChecks_notPin mode) fun _ => Emits.pure _)
+  refine CountLe.mono (CountLe.bind (nu initGuards_notPin) fun om => ?_) (by omega : 0 + 1 ≤ 1)
+  split
+  · exact CountLe.mono (CountLe.bind handleBootloader_count fun _ =>
+      CountLe.bind (nu getCurrentMode_notPin) fun mode => tail mode) (by omega)
+  · exact CountLe.mono (tail _) (by omega)
+
+/-- **PIN material is sent only after all checks passed**: if any PIN-bearing message occurs in a
+    bring-up, then the start-up checks had handed over with "onboarded" and bootloader mode, and
+    the bootloader checks had handed over with a supported UI version, a correct echo and at
+    least two retries — all as reported by the device in this very run -/
+theorem pin_only_after_checks (w : World) (h : (initializeDevice w).evs.all notPin = false) :
+    ∃ e1 w1, initGuards w = ⟨.ok (true, Mode_BOOTLOADER.toNat), e1, w1⟩ ∧
+      ∃ v r e2 w2, blGuards w1 = ⟨.ok (v, true, r), e2, w2⟩ ∧ supports UI_VERSION v = true ∧ 2 ≤ r := by
+  unfold initializeDevice at h
+  have hg := initGuards_notPin w
+  have hr := initGuards_returns w
+  cases hi : initGuards w with
+  | mk val e1 w1 =>
+    rw [hi] at hg hr
+    cases val with
+    | error e => rw [bind_error hi] at h; simp only at h hg; rw [hg] at h; cases h
+    | ok om =>
+      obtain ⟨o, mode⟩ := om
+      have ho : o = true := hr (o, mode) rfl
+      subst ho
+      rw [bind_ok hi] at h
+      simp only [List.all_append, hg, Bool.true_and] at h
+      by_cases hm : mode = Mode_BOOTLOADER.toNat
+      · subst hm
+        refine ⟨e1, w1, rfl, ?_⟩
+        simp only [beq_self_eq_true, if_true] at h
+        have hb := blGuards_notPin w1
+        have hbr := blGuards_returns w1
+        cases hbl : blGuards w1 with
+        | mk val2 e2 w2 =>
+          rw [hbl] at hb hbr
+          cases val2 with
+          | error e =>
+            exfalso
+            have h1 : handleBootloader w1 = ⟨.error e, e2, w2⟩ := by
+              unfold handleBootloader; exact bind_error hbl
+            rw [bind_error h1] at h
+            simp only at h hb
+            rw [hb] at h; cases h
+          | ok x =>
+            obtain ⟨v, e, r⟩ := x
+            obtain ⟨hs, he, hr2⟩ := hbr (v, e, r) rfl
+            simp only at he; subst he
+            exact ⟨v, r, e2, w2, rfl, hs, hr2⟩
+      · exfalso
+        have hne : (mode == Mode_BOOTLOADER.toNat) = false := by simpa using hm
+        simp only [hne, Bool.false_eq_true, if_false] at h
+        have : Emits notPin (afterDispatch mode) :=
+          Emits.bind (signerChecks_notPin mode) fun _ => Emits.pure _
+        have := this w1
+        rw [this] at h; cases h
+
+/-- **serving starts only from signer mode with a supported signer version**: a bring-up that
+    ends in "served" ended with those two facts reported by the device -/
+theorem served_only_if (mode : Nat) (w : World) (h : (afterDispatch mode w).val = .ok ()) :
+    mode = Mode_SIGNER.toNat ∧ ∃ v e w', signerChecks mode w = ⟨.ok (mode, v), e, w'⟩ ∧ supports APP_VERSION v = true := by
+  unfold afterDispatch at h
+  cases hs : signerChecks mode w with
+  | mk val e w' =>
+    cases val with
+    | error x => rw [bind_error hs] at h; cases h
+    | ok x =>
+      obtain ⟨m, v⟩ := x
+      obtain ⟨hm, hsig, hsup⟩ := signerChecks_returns mode w (m, v) (by rw [hs])
+      simp only at hm hsig hsup
+      subst hm
+      exact ⟨hsig, v, e, w', rfl, hsup⟩
+
+/-- non-vacuity of `pin_only_after_checks` / `unlock_at_most_once`: an onboarded Ledger in
+    bootloader mode, UI 5.4.1, three retries — the PIN bytes and exactly one unlock are sent -/
+example :
+    let w : World :=
+      { script := [.data [0x80, 1, 5, 4, 1], .data [0x80, 2], .data [0x80, 1, 5, 4, 1],
+                   .data [0x80, 2, 0x41, 0x42, 0x43], .data [0x80, 69, 3], .data [0x80], .data [0x80],
+                   .data [0x80, 0xFE, 1]],
+        pin := some { pin := [0x31, 0x32], needsChange := false } }
+    (initializeDevice w).evs.all notPin = false ∧ (initializeDevice w).evs.countP isUnlock = 1 := by
+  decide +kernel
 
 /-- non-vacuity of the relation around 5.4.1 -/
 example : supports (5, 4, 1) (5, 4, 1) = true ∧ supports (5, 4, 1) (5, 3, 9) = true ∧
